@@ -18,12 +18,25 @@ if [ -f $DIR/demo.sh ]; then
   (cd $DIR && timeout 600 bash $DIR/demo.sh /repo >/dev/null 2>&1); DEMO_ORIG=$?
   (cd $DIR && timeout 600 bash $DIR/demo.sh $WT >/dev/null 2>&1); DEMO_PATCH=$?
 fi
-RES=""
+RESF=$(mktemp /tmp/seedres_XXXXXX)
 for C in $CHECKS; do
   OUT=$(cd /verif && AU_REPO=$WT timeout 3000 ./check $C --tier quick 2>&1); RC=$?
-  NV=$(echo "$OUT" | grep -c "^VIOLATION")
-  FIRST=$(echo "$OUT" | grep -A1 "^VIOLATION" | grep "what:" | head -1 | cut -c1-260 | sed 's/"/\\"/g')
-  ERR=$(echo "$OUT" | grep "^ERROR" | head -1 | cut -c1-200 | sed 's/"/\\"/g')
-  RES="$RES{\"check\":\"$C\",\"rc\":$RC,\"violations\":$NV,\"first\":\"$FIRST\",\"error\":\"$ERR\"},"
+  echo "$OUT" > $RESF.$C.out
+  echo "$C $RC" >> $RESF
 done
-echo "{\"prop\":\"$PROP\",\"dir\":\"$DIR\",\"suite_passes\":$SUITE,\"demo_on_original\":\"$DEMO_ORIG\",\"demo_on_patched\":\"$DEMO_PATCH\",\"checks\":[${RES%,}]}"
+python3 - "$PROP" "$DIR" "$SUITE" "$DEMO_ORIG" "$DEMO_PATCH" "$RESF" <<'PYEOF'
+import json, sys
+prop, d, suite, do, dp, resf = sys.argv[1:7]
+checks = []
+for line in open(resf):
+    c, rc = line.split()
+    out = open("%s.%s.out" % (resf, c)).read().splitlines()
+    viol = [i for i, l in enumerate(out) if l.startswith("VIOLATION")]
+    first = ""
+    for i in viol[:1]:
+        first = next((l for l in out[i + 1:i + 3] if "what:" in l), "")[:260]
+    err = next((l for l in out if l.startswith("ERROR")), "")[:200]
+    checks.append({"check": c, "rc": int(rc), "violations": len(viol), "first": first, "error": err})
+print(json.dumps({"prop": prop, "dir": d, "suite_passes": int(suite), "demo_on_original": do, "demo_on_patched": dp, "checks": checks}))
+PYEOF
+rm -f $RESF $RESF.*.out
